@@ -580,6 +580,42 @@ func absPaths(c *Ctx, dv *dev) ([]*Path, error) {
 			keep[b] = true
 		}
 	}
+	// the change of coordinates 2v-1 (an unsigned position stretched to -1..1) stays a path condition wherever it is made:
+	// hidden in a merged value it would make an unsigned axis look like a signed one to the rules that read the transfer
+	// terms (`signed := value; if !canBeNegative { signed = value*2 - 1 }` in front of the type switch)
+	for _, host := range dv.hostsOf(fn) {
+		for _, b := range host.Blocks {
+			for _, in := range b.Instrs {
+				sub, ok := in.(*ssa.BinOp)
+				if !ok || sub.Op != token.SUB || !isFloatType(sub.Type()) {
+					continue
+				}
+				mul, ok := sub.X.(*ssa.BinOp)
+				if !ok || mul.Op != token.MUL {
+					continue
+				}
+				k1, ok1 := sub.Y.(*ssa.Const)
+				if !ok1 || k1.Value == nil || k1.Value.String() != "1" {
+					continue
+				}
+				two := false
+				for _, op := range []ssa.Value{mul.X, mul.Y} {
+					if k, isK := op.(*ssa.Const); isK && k.Value != nil && k.Value.String() == "2" {
+						two = true
+					}
+				}
+				if !two {
+					continue
+				}
+				for d := b.Idom(); d != nil; d = d.Idom() {
+					if _, isIf := d.Instrs[len(d.Instrs)-1].(*ssa.If); isIf {
+						keep[d] = true
+						break
+					}
+				}
+			}
+		}
+	}
 	paths, err := Enumerate(fn, SymConfig{Prog: c.P, MaxDepth: 3, Collapse: true, CollapsePure: true, OnlyInline: only, KeepDiamonds: keep, KeepDecided: true, MaxVisits: 4}) // short fixed loops (a two-entry fallback table, a variadic release helper) unroll completely
 	c.Paths += len(paths)
 	return paths, err
